@@ -131,6 +131,10 @@ def scenarios(ctx):
                    connects=[(False, 0, 4)], reconnects=[(False, 0, 4), (False, 0, 3)], pub_qos=(0, 1, 2), windows=(2,),
                    budgets=dict(pub=3, ack=1 if q else 2, dack=0 if q else 1, lose=1, rebuild=1, connect=1, connack=1, setwin=1, tick=0 if q else 2),
                    closing=False))
+    # a persistent session begun under 3.1 (where repeats of SUBSCRIBE, UNSUBSCRIBE and PUBREL carry DUP) is resumed under 3.1.1
+    out.append(Std('persist-v31-to-v311', profile='pubsub', mode='sync', init=(('connect', 0, False, 0, 3), ('connack', 0, 0, False)),
+                   connects=[(False, 0, 3)], reconnects=[(False, 0, 4)], pub_qos=(2,),
+                   budgets=dict(pub=1, sub=1, unsub=1, ack=1, tick=2 if q else 3, lose=1, rebuild=1, connect=1, connack=1), closing=False))
     # repeated acknowledgements, then disconnect()/loss, then time passes
     for mode in ('sync', 'async'):
         out.append(Std('q2-dup-acks-%s' % mode, profile='pub', mode=mode, init=CONNECTED, pub_qos=(2,), api_after_close=True,
